@@ -288,6 +288,15 @@ def jdump(x) -> str:
 
 # --------------------------------------------------------------------------- trace validation
 
+def _no_null(x):
+    """TLC's Json module cannot read null: drop None-valued members, turn None items into "null"."""
+    if isinstance(x, dict):
+        return {k: _no_null(v) for k, v in x.items() if v is not None}
+    if isinstance(x, (list, tuple)):
+        return ["null" if v is None else _no_null(v) for v in x]
+    return x
+
+
 def validate_traces(module: str, cfg: str | Path, traces: list, work: Path, *, name: str = "traces",
                     env: dict | None = None, timeout: int = 3600, dfs: bool = False):
     """Batch trace validation: `traces` is a list of event lists.  Returns (TlcResult, rejected, inv_violations)
@@ -295,7 +304,7 @@ def validate_traces(module: str, cfg: str | Path, traces: list, work: Path, *, n
     """
     work.mkdir(parents=True, exist_ok=True)
     tf = work / f"{name}_{time.time_ns()}.json"
-    tf.write_text(json.dumps(traces))
+    tf.write_text(json.dumps(_no_null(traces)))
     e = {"TRACE_FILE": str(tf)}
     if env:
         e.update(env)
@@ -324,3 +333,138 @@ def validate_traces(module: str, cfg: str | Path, traces: list, work: Path, *, n
     except OSError:
         pass
     return res, rejected, inv
+
+
+# --------------------------------------------------------------------------- TLA value parsing
+
+def tla_to_py(text: str):
+    """Parse a printed TLA+ value made of tuples/sequences, sets, strings, ints, booleans and records."""
+    pos = 0
+    n = len(text)
+
+    def ws():
+        nonlocal pos
+        while pos < n and text[pos] in " \t\r\n":
+            pos += 1
+
+    def val():
+        nonlocal pos
+        ws()
+        if text.startswith("<<", pos):
+            pos += 2
+            items = []
+            ws()
+            if text.startswith(">>", pos):
+                pos += 2
+                return items
+            while True:
+                items.append(val())
+                ws()
+                if text.startswith(">>", pos):
+                    pos += 2
+                    return items
+                assert text[pos] == ",", (text[pos:pos + 20])
+                pos += 1
+        if text[pos] == "{":
+            pos += 1
+            items = []
+            ws()
+            if text[pos] == "}":
+                pos += 1
+                return items
+            while True:
+                items.append(val())
+                ws()
+                if text[pos] == "}":
+                    pos += 1
+                    return items
+                pos += 1
+        if text[pos] == "[":
+            pos += 1
+            rec = {}
+            while True:
+                ws()
+                m = re.match(r"(\w+)\s*\|->", text[pos:])
+                pos += m.end()
+                rec[m.group(1)] = val()
+                ws()
+                if text[pos] == "]":
+                    pos += 1
+                    return rec
+                pos += 1
+        if text[pos] == '"':
+            j = pos + 1
+            out = []
+            while text[j] != '"':
+                if text[j] == "\\":
+                    j += 1
+                out.append(text[j])
+                j += 1
+            pos = j + 1
+            return "".join(out)
+        m = re.match(r"-?\d+", text[pos:])
+        if m:
+            pos += m.end()
+            return int(m.group())
+        if text.startswith("TRUE", pos):
+            pos += 4
+            return True
+        if text.startswith("FALSE", pos):
+            pos += 5
+            return False
+        raise ValueError(f"cannot parse TLA value at {text[pos:pos + 30]!r}")
+
+    return val()
+
+
+def printed_tuples(out: str, tag: str):
+    """All PrintT'ed tuples <<"tag", ...>> in TLC output (single-line each; robust to interleaving by bracket matching)."""
+    res = []
+    pat = re.compile(r'<<\s*"' + re.escape(tag) + r'"\s*,')
+    m0 = pat.search(out)
+    i = m0.start() if m0 else -1
+    while i >= 0:
+        depth = 0
+        j = i
+        while j < len(out):
+            if out.startswith("<<", j):
+                depth += 1
+                j += 2
+                continue
+            if out.startswith(">>", j):
+                depth -= 1
+                j += 2
+                if depth == 0:
+                    break
+                continue
+            j += 1
+        try:
+            res.append(tla_to_py(out[i:j]))
+        except Exception:
+            pass
+        m0 = pat.search(out, j)
+        i = m0.start() if m0 else -1
+    return res
+
+
+def validate_traces_parallel(module, cfg, traces, work: Path, *, chunks: int | None = None, chunk_size: int = 4000,
+                             env=None, timeout=3600, dfs=False):
+    """validate_traces over chunks in parallel TLC processes.  Returns (list of TlcResult, rejected, inv)."""
+    if not traces:
+        return [], {}, []
+    k = chunks or max(1, min(NCPU, (len(traces) + chunk_size - 1) // chunk_size))
+    size = (len(traces) + k - 1) // k
+    parts = [(i, traces[i:i + size]) for i in range(0, len(traces), size)]
+
+    def one(p):
+        off, trs = p
+        r, rej, inv = validate_traces(module, cfg, trs, work / f"tv{off}", env=env, timeout=timeout, dfs=dfs)
+        return r, {off + a: b for a, b in rej.items()}, [(n, (off + t) if t is not None else None) for n, t in inv]
+
+    outs = pmap(one, parts, workers=min(NCPU, len(parts)))
+    rs, rej, inv = [], {}, []
+    for r, a, b in outs:
+        rs.append(r)
+        rej.update(a)
+        inv.extend(b)
+    return rs, rej, inv
